@@ -215,9 +215,10 @@ func c15r4(r *R) {
 	ef := c.Func("", "envWithDefaultBool")
 	r.need(ef != nil, "envWithDefaultBool not found")
 	o2 := r.Ob("C15.R4", "env-bool-parsing:"+funcName(ef)).At(ef.Pos())
-	// Every way of returning is justified by the conditions of its path (deny by default): a literal true/false needs the
-	// (lower-cased) value compared equal to "true"/"false"; strconv.ParseBool's result needs its error tested nil; the
-	// default needs the variable unset or the value not recognised.
+	// Every way of returning is justified by the conditions of its path: where the (lower-cased) value compared equal to
+	// "true" only true is returned, where it compared equal to "false" only false; a literal result needs *some* test of
+	// the value on its path (further accepted spellings are not this property's business); strconv.ParseBool's result
+	// needs its error tested nil; with the variable unset the default is returned.
 	hasLit := func(lits []string, pre string, mid string) bool {
 		for _, l := range lits {
 			if strings.HasPrefix(l, pre) && strings.Contains(l, mid) {
@@ -231,20 +232,39 @@ func c15r4(r *R) {
 	alts := c.returnAlts(ef, 0)
 	for _, ra := range alts {
 		o2.AtI(ra.Ret)
+		isTrue, isFalse := hasLit(ra.Lits, `+("true" == `, val), hasLit(ra.Lits, `+("false" == `, val)
+		parsed := strings.HasPrefix(ra.E, "strconv.ParseBool(") && strings.HasSuffix(ra.E, "#0") && strings.Contains(ra.E, val)
+		if isTrue {
+			seen["true"] = true
+			o2.Check(ra.E == "true", "with the environment value \"true\" envWithDefaultBool returns %s (conditions %v)", ra.E, ra.Lits)
+		}
+		if isFalse {
+			seen["false"] = true
+			o2.Check(ra.E == "false", "with the environment value \"false\" envWithDefaultBool returns %s (conditions %v): an explicit ENABLE_KUBERNETES_PROBE=false would not disable probe answers", ra.E, ra.Lits)
+		}
 		switch {
+		case isTrue || isFalse:
 		case ra.E == "true" || ra.E == "false":
-			seen[ra.E] = true
-			o2.Check(hasLit(ra.Lits, `+("`+ra.E+`" == `, val), "envWithDefaultBool returns %s on a path that does not compare the environment value with %q (conditions %v): an explicit ENABLE_KUBERNETES_PROBE=false would not disable probe answers", ra.E, ra.E, ra.Lits)
-		case strings.HasPrefix(ra.E, "strconv.ParseBool(") && strings.HasSuffix(ra.E, "#0") && strings.Contains(ra.E, val):
+			tested := false
+			for _, l := range ra.Lits {
+				if strings.HasPrefix(l, `+("`) && strings.Contains(l, `" == `) && strings.Contains(l, val) {
+					tested = true
+				}
+			}
+			o2.Check(tested, "envWithDefaultBool returns %s on a path that does not compare the environment value with anything (conditions %v)", ra.E, ra.Lits)
+		case parsed:
 			seen["true"], seen["false"] = true, true
 			call := strings.TrimSuffix(ra.E, "#0")
 			o2.Check(hasLit(ra.Lits, "+(nil == "+call+"#1)", ""), "envWithDefaultBool returns the result of strconv.ParseBool without its error being nil (conditions %v)", ra.Lits)
 		case ra.E == "p1":
-			unset := hasLit(ra.Lits, "-os.LookupEnv(p0)#1", "")
-			unrecognised := (hasLit(ra.Lits, `+("true" != `, val) && hasLit(ra.Lits, `+("false" != `, val)) || hasLit(ra.Lits, "+(strconv.ParseBool(", "#1 != nil)")
-			o2.Check(unset || unrecognised, "envWithDefaultBool returns the default on a path where the variable is set and its value may be a recognised boolean (conditions %v): an explicit ENABLE_KUBERNETES_PROBE=false would not disable probe answers", ra.Lits)
+			// the default: fine when unset or not recognised (the two recognised spellings were handled above); a value
+			// that strconv.ParseBool accepted is recognised
+			o2.Check(!hasLit(ra.Lits, "+(nil == strconv.ParseBool(", "#1)"), "envWithDefaultBool returns the default although strconv.ParseBool accepted the value (conditions %v): an explicit ENABLE_KUBERNETES_PROBE=false would not disable probe answers", ra.Lits)
 		default:
-			o2.Fail("envWithDefaultBool returns %s (conditions %v): neither a recognised boolean nor the default", ra.E, ra.Lits)
+			o2.Fail("envWithDefaultBool returns %s (conditions %v): neither a boolean decided by the value nor the default", ra.E, ra.Lits)
+		}
+		if hasLit(ra.Lits, "-os.LookupEnv(p0)#1", "") {
+			o2.Check(ra.E == "p1", "with the variable unset envWithDefaultBool returns %s, want the default", ra.E)
 		}
 	}
 	o2.Check(len(alts) > 0 && seen["true"] && seen["false"], "envWithDefaultBool does not recognise both \"true\" and \"false\" (neither comparisons nor strconv.ParseBool)")
